@@ -191,6 +191,9 @@ impl RespProg {
 
 #[derive(Debug, Clone, Serialize, Deserialize, PartialEq, Eq, Hash)]
 pub struct HandlerProg {
+    /// scheduler yields before anything else (progress by polls, not by time)
+    #[serde(default)]
+    pub pre_yields: u32,
     pub pre_delay_ms: u16,
     pub read: ReadProg,
     /// sleep after every chunk read from the request body
@@ -204,6 +207,7 @@ pub struct HandlerProg {
 impl HandlerProg {
     pub fn simple() -> Self {
         HandlerProg {
+            pre_yields: 0,
             pre_delay_ms: 0,
             read: ReadProg::All,
             read_pace_ms: 0,
@@ -298,6 +302,8 @@ pub struct Outcome {
     pub taken: usize,
     pub taken_log: Vec<(u64, usize)>,
     pub max_inflight: i64,
+    /// `max_inflight` as it stood each time a handler returned
+    pub inflight_marks: Vec<i64>,
     pub max_pulled_ahead: i64,
     pub read_pending: u32,
     pub read_pending_with_more: u32,
@@ -541,7 +547,7 @@ impl MessageBody for EchoBody {
                     l.reqs[this.idx].body.extend_from_slice(&b);
                 }
                 drop(l);
-                this.peer.delivered(b.len());
+                this.peer.delivered_body(b.len());
                 Poll::Ready(Some(Ok(b)))
             }
             Poll::Ready(Some(Err(e))) => {
@@ -739,6 +745,9 @@ async fn handle(
             l.reqs[idx].end = BodyEnd::Dropped;
         }
     }
+    for _ in 0..prog.pre_yields {
+        tokio::task::yield_now().await;
+    }
     if prog.pre_delay_ms > 0 {
         tokio::time::sleep(Duration::from_millis(prog.pre_delay_ms as u64)).await;
     }
@@ -768,7 +777,7 @@ async fn handle(
                                     l.reqs[idx].body.extend_from_slice(&b);
                                 }
                             }
-                            peer.delivered(b.len());
+                            peer.delivered_body(b.len());
                             if prog.read_pace_ms > 0 {
                                 tokio::time::sleep(Duration::from_millis(prog.read_pace_ms as u64))
                                     .await;
@@ -796,6 +805,7 @@ async fn handle(
     }
     guard.armed = false;
     {
+        peer.mark_inflight();
         let mut l = log.borrow_mut();
         l.reqs[idx].t_return = Some(peer.now_ms());
         let r = &mut l.reqs[idx];
@@ -837,6 +847,10 @@ pub struct Scenario {
     pub wsched: Option<simnet::WSched>,
     /// keep the request-body bytes the handlers saw (off for volume tests)
     pub capture_bodies: bool,
+    /// wire bytes per request-body byte (num, den) for in-flight accounting of chunked bodies
+    pub body_scale: (u64, u64),
+    /// the socket's `poll_shutdown` never completes
+    pub shutdown_blocks: bool,
 }
 
 impl Scenario {
@@ -853,6 +867,8 @@ impl Scenario {
             is_head: vec![],
             wsched: None,
             capture_bodies: true,
+            body_scale: (1, 1),
+            shutdown_blocks: false,
         }
     }
 }
@@ -892,6 +908,8 @@ pub fn run(sc: Scenario) -> Outcome {
         }
         eprintln!("out ({} bytes): {}", out.out.len(), util::show_bytes(&out.out, 3000));
         eprintln!("out_log: {:?}", &out.out_log[..out.out_log.len().min(30)]);
+        eprintln!("taken_log: {:?}", &out.taken_log[..out.taken_log.len().min(60)]);
+        eprintln!("max_inflight={} marks={:?} alloc_peak={}", out.max_inflight, &out.inflight_marks[..out.inflight_marks.len().min(5)], out.alloc_peak);
     }
     out
 }
@@ -909,9 +927,13 @@ async fn run_inner(sc: Scenario) -> Outcome {
         is_head,
         wsched,
         capture_bodies,
+        body_scale,
+        shutdown_blocks,
     } = sc;
     let (io, peer) = simnet::pair();
     peer.0.borrow_mut().keep_taken_log = keep_taken_log;
+    peer.0.borrow_mut().shutdown_blocks = shutdown_blocks;
+    peer.0.borrow_mut().body_scale = (body_scale.0.max(1), body_scale.1.max(1));
     let log = Rc::new(RefCell::new(Log {
         head_lens,
         no_capture: !capture_bodies,
@@ -1071,6 +1093,7 @@ async fn run_inner(sc: Scenario) -> Outcome {
         taken: s.taken,
         taken_log: s.taken_log.clone(),
         max_inflight: s.max_inflight,
+        inflight_marks: s.inflight_marks.clone(),
         max_pulled_ahead: l.max_pulled_ahead,
         read_pending: s.read_pending,
         read_pending_with_more: s.read_pending_with_more,
